@@ -426,7 +426,7 @@ harness!(avx2vec, 66, c02_ctl_m2_r3_l90_b2_generic, collect_sparse_body::<2, 3, 
 harness!(avx2vec, 34, c02_ctl_m0_r2_l33_b1_avx2, collect_sparse_body::<0, 2, 33, 1, 2>(Dispatch::Avx2, 30.0, 1, &[32]));
 
 // --- C03 -------------------------------------------------------------------------------
-//@ C03 extended 10800 scanner max(): matrix 0 (M=2), R=1, L=32, default block, AVX2 arm, no prior next() | kani=--no-assertion-reach-checks | mem=16 | unwindset=scan::Scanner<.*Iterator>::next#0:6;scan::Scanner<.*Iterator>::max#0:6
+//@ C03 thorough 5400 scanner max(): matrix 0 (M=2), R=1, L=32, default block, AVX2 arm, no prior next() | kani=--no-assertion-reach-checks | mem=16 | unwindset=scan::Scanner<.*Iterator>::next#0:6;scan::Scanner<.*Iterator>::max#0:6
 harness!(avx2vec, 34, c03_m0_r1_l32_b256_avx2_pre0, max_body::<0, 1, 32, 256, 0>(Dispatch::Avx2));
 //@ C03 extended 10800 scanner max(): matrix 2 (M=3, near-ties under byte rounding), R=1, L=16, AVX2 arm, no prior next() | kani=--no-assertion-reach-checks | mem=16 | unwindset=scan::Scanner<.*Iterator>::next#0:6;scan::Scanner<.*Iterator>::max#0:6
 harness!(avx2vec, 34, c03_m2_r1_l16_b256_avx2_pre0, max_body::<2, 1, 16, 256, 0>(Dispatch::Avx2));
@@ -450,7 +450,7 @@ harness!(avx2vec, 66, c03_m1_r2_l33_b3_sse2_pre1, max_body::<1, 2, 33, 3, 1>(Dis
 harness!(avx2vec, 34, c03_m4_r1_l10_b256_avx2_pre0, max_body::<4, 1, 10, 256, 0>(Dispatch::Avx2));
 //@ C03 quick 800 scanner max(): matrix 0 (M=2), R=1, L=4 all symbolic, threshold 1.0, AVX2 arm, no prior next() | kani=--no-assertion-reach-checks | mem=10 | unwindset=scan::Scanner<.*Iterator>::next#0:6;scan::Scanner<.*Iterator>::max#0:6
 harness!(avx2vec, 34, c03_tiny_m0_r1_l4_avx2_pre0, max_sparse_body::<0, 1, 4, 256, 0>(Dispatch::Avx2, 1.0, 0, &[0, 1, 2, 3]));
-//@ C03 quick 800 scanner max(): matrix 2 (M=3, near-ties under byte rounding), R=1, L=6 all symbolic, threshold 1.25, AVX2 arm, no prior next() | kani=--no-assertion-reach-checks | mem=10 | unwindset=scan::Scanner<.*Iterator>::next#0:6;scan::Scanner<.*Iterator>::max#0:6
+//@ C03 thorough 3600 scanner max(): matrix 2 (M=3, near-ties under byte rounding), R=1, L=6 all symbolic, threshold 1.25, AVX2 arm, no prior next() | kani=--no-assertion-reach-checks | mem=10 | unwindset=scan::Scanner<.*Iterator>::next#0:6;scan::Scanner<.*Iterator>::max#0:6
 harness!(avx2vec, 34, c03_tiny_m2_r1_l6_avx2_pre0, max_sparse_body::<2, 1, 6, 256, 0>(Dispatch::Avx2, 1.25, 0, &[0, 1, 2, 3, 4, 5]));
 //@ C03 thorough 2598 scanner max(): matrix 0 (M=2), R=1, L=5 all symbolic, threshold 2.0 (a score value: equality matters), generic arm, one prior next() | kani=--no-assertion-reach-checks | mem=10 | unwindset=scan::Scanner<.*Iterator>::next#0:6;scan::Scanner<.*Iterator>::max#0:6
 harness!(avx2vec, 34, c03_tiny_m0_r1_l5_generic_pre1, max_sparse_body::<0, 1, 5, 256, 1>(Dispatch::Generic, 2.0, 0, &[0, 1, 2, 3, 4]));
